@@ -86,10 +86,25 @@ func same(a, b interface{}) bool {
 	return string(x) == string(y)
 }
 
+// decodeInto decodes enc into dst (which may already hold a set) and reports whether dst then shows the form f
+// and re-encodes to the very same bytes.
+func decodeInto(enc []byte, dst *pos.Validators, f map[string]interface{}) (bool, error) {
+	if err := rlp.DecodeBytes(enc, dst); err != nil {
+		return false, err
+	}
+	enc2, err := rlp.EncodeToBytes(dst)
+	if err != nil {
+		return false, err
+	}
+	return same(f, form(dst)) && string(enc) == string(enc2), nil
+}
+
 func (in *valInst) Apply(act map[string]interface{}) (map[string]interface{}, error) {
 	if act["op"] != "set" {
 		return nil, fmt.Errorf("unknown op %v", act["op"])
 	}
+	prev := in.b.Build() // the set as it was before this call
+	prevForm := form(prev)
 	id, _ := act["id"].(float64)
 	w, _ := act["w"].(float64)
 	in.b.Set(idx.ValidatorID(id), pos.Weight(w))
@@ -99,19 +114,35 @@ func (in *valInst) Apply(act map[string]interface{}) (map[string]interface{}, er
 	if err != nil {
 		return nil, err
 	}
+	// into a fresh receiver
 	var d pos.Validators
-	if err := rlp.DecodeBytes(enc, &d); err != nil {
+	fresh, err := decodeInto(enc, &d, f)
+	if err != nil {
 		return nil, err
 	}
-	// the encoding of the decoded set must be the same bytes again (same order)
-	enc2, err := rlp.EncodeToBytes(&d)
+	// into a receiver that already holds an unrelated set
+	ob := pos.NewBuilder()
+	ob.Set(1, 3)
+	ob.Set(2, 3)
+	ob.Set(3, 3)
+	ob.Set(9, 1)
+	other, err := decodeInto(enc, ob.Build(), f)
+	if err != nil {
+		return nil, err
+	}
+	// into a by-value copy of the previous set; the previous set itself must not change
+	pc := *prev
+	intoPrev, err := decodeInto(enc, &pc, f)
 	if err != nil {
 		return nil, err
 	}
 	return map[string]interface{}{
-		"rlp_same":     same(f, form(&d)) && string(enc) == string(enc2),
-		"copy_same":    same(f, form(v.Copy())),
-		"builder_same": same(f, form(v.Builder().Build())),
+		"rlp_same":                   fresh,
+		"copy_same":                  same(f, form(v.Copy())),
+		"builder_same":               same(f, form(v.Builder().Build())),
+		"decode_into_other_same":     other,
+		"decode_into_prev_copy_same": intoPrev,
+		"prev_unchanged":             same(prevForm, form(prev)) && same(f, form(v)),
 	}, nil
 }
 
